@@ -20,7 +20,8 @@ CONSTANTS MaxN,     \* <<max n in 1-D, 2-D, 3-D, 4-D>>
           NVs,      \* numbers of components
           Pats,     \* ids of value patterns
           Coefs,    \* pairs <<a, b>> for linear combinations
-          Shifts    \* translation vectors (4-sequences)
+          Shifts,   \* translation vectors (4-sequences)
+          Scales    \* integer factors of an in-place scaling of the field's own mesh about the origin
 
 VARIABLES mesh, nv, pat, act, obs
 vars == <<mesh, nv, pat, act, obs>>
@@ -164,6 +165,13 @@ QTranslated   == \E s \in Shifts :
                  /\ Fresh /\ act' = <<"translated", s>>
                  /\ obs' = [op \in Ops(mesh) |-> Apply(op, Fld(Shift(mesh, s), A))]
                  /\ UNCHANGED <<mesh, nv, pat>>
+(* the same calls after the mesh UNDER the field has been scaled in place about the origin (a history: read, *)
+(* mesh.scale(s, inplace=True), read again): the integrals must use the cell measure of the mesh as it is NOW  *)
+ScaleMesh(m, s) == [m EXCEPT !.lo = [d \in Dims(m) |-> s * m.lo[d]], !.c = [d \in Dims(m) |-> s * m.c[d]]]
+QRescaled     == \E s \in Scales :
+                 /\ Fresh /\ act' = <<"rescaled", s>>
+                 /\ obs' = [op \in Ops(mesh) |-> Apply(op, Fld(ScaleMesh(mesh, s), A))]
+                 /\ UNCHANGED <<mesh, nv, pat>>
 (* the same calls on a single component (f.<label>) *)
 QComponent    == \E c \in 1 .. nv :
                  /\ Fresh /\ nv > 1
@@ -173,7 +181,7 @@ QComponent    == \E c \in 1 .. nv :
 
 (* a plain disjunction of named actions, so that -coverage reports each of them *)
 Next == \/ QIntegrateAll \/ QIntegrateDir \/ QIntegrateCum \/ QChains
-        \/ QMeanAll \/ QMeanDir \/ QMeanSeqs \/ QLinear \/ QTranslated \/ QComponent
+        \/ QMeanAll \/ QMeanDir \/ QMeanSeqs \/ QLinear \/ QTranslated \/ QComponent \/ QRescaled
 Spec == Init /\ [][Next]_vars
 
 (* ==== the property, clause by clause (in the property's own terms) ==================== *)
@@ -264,6 +272,15 @@ C06_Linear == act[1] = "linear" =>
       \A op \in DOMAIN obs : LinearOK(obs[op], Apply(op, F), Apply(op, G), act[2][1], act[2][2])
 C06_TranslationInvariant == act[1] = "translated" =>
       \A op \in DOMAIN obs : TranslOK(obs[op], Apply(op, F), act[2])
+(* after an in-place scaling every clause holds for the mesh as it is now (stale cell measures are excluded) *)
+C06_AfterInplaceScale == act[1] = "rescaled" =>
+      LET M2 == ScaleMesh(mesh, act[2]) IN
+      /\ VolumeOK(obs[<<"all">>], M2, A)
+      /\ MeanOK(obs[<<"mean_all">>], obs[<<"all">>], Extent(M2, AxesOf(M2)))
+      /\ \A d \in Dims(mesh) : /\ DirectionalOK(obs[<<"dir", d>>], M2, A, d)
+                               /\ CumOK(obs[<<"cum", d>>], M2, A, d)
+                               /\ CumLastOK(obs[<<"cum", d>>], obs[<<"dir", d>>], M2, A, d)
+                               /\ MeanOK(obs[<<"mean_dir", d>>], obs[<<"dir", d>>], Edge(M2, d))
 C06_PerComponent == act[1] = "component" =>
       \A op \in DOMAIN obs : CompOK(obs[op], Apply(op, F), act[2])
 =============================================================================
